@@ -12,7 +12,7 @@ use crate::gen;
 use crate::oracles::edit::{self, EqModel};
 use bio::alignment::distance as bdist;
 use bio::pattern_matching::myers::{long, Myers, MyersBuilder};
-use bio::pattern_matching::ukkonen::Ukkonen;
+use bio::pattern_matching::ukkonen::{unit_cost, Ukkonen};
 use serde_json::{json, Value};
 
 pub struct C09Prop;
@@ -608,7 +608,28 @@ fn cost_weighted(a: u8, b: u8) -> u32 {
     }
 }
 
+/// the library's public default cost function, run through the same cases as the module's own
+/// unit cost closure (it must behave exactly like it); units of its own at the end of the unit list
+const LIB_COST: &str = "unit_cost";
+/// every cost name a case description can carry
+const ALL_COSTS: [&str; 4] = ["unit", "caseless", "weighted", LIB_COST];
+
+fn cost_name(v: &Value) -> &'static str {
+    ALL_COSTS.iter().cloned().find(|c| *v == **c).unwrap_or("unit")
+}
+
+/// the cost function handed to the subject
 fn cost_fn(name: &str) -> fn(u8, u8) -> u32 {
+    match name {
+        "caseless" => cost_caseless,
+        "weighted" => cost_weighted,
+        "unit_cost" => unit_cost,
+        _ => cost_unit,
+    }
+}
+
+/// the cost function of the reference DP (never the library's own function)
+fn model_cost(name: &str) -> fn(u8, u8) -> u32 {
     match name {
         "caseless" => cost_caseless,
         "weighted" => cost_weighted,
@@ -647,7 +668,7 @@ fn check_ukkonen(cost: &str, p: &[u8], t: &[u8], k: u64, d: &[u64], cc: &mut Cas
     }
 }
 
-fn ukkonen_unit(tier: Tier, shard: usize, nshards: usize, ctx: &mut Ctx) {
+fn ukkonen_unit(tier: Tier, costs: &[&'static str], shard: usize, nshards: usize, ctx: &mut Ctx) {
     let (pmax, tmax) = ukk_bounds(tier);
     let pats = gen::strings(b"abA", 1, pmax);
     let texts = gen::strings(b"abA", 0, tmax);
@@ -655,8 +676,8 @@ fn ukkonen_unit(tier: Tier, shard: usize, nshards: usize, ctx: &mut Ctx) {
         if idx % nshards != shard {
             continue;
         }
-        for cost in COSTS {
-            let f = cost_fn(cost);
+        for &cost in costs {
+            let f = model_cost(cost);
             for t in &texts {
                 let d = edit::semiglobal(p, t, |a, b| f(a, b) as u64);
                 // k up to m+2: with the weighted cost a distance can exceed m
@@ -672,13 +693,13 @@ fn ukkonen_unit(tier: Tier, shard: usize, nshards: usize, ctx: &mut Ctx) {
 }
 
 /// threshold usize::MAX ("any distance"): the statement quantifies over every threshold
-fn ukkonen_kmax_unit(tier: Tier, ctx: &mut Ctx) {
+fn ukkonen_kmax_unit(tier: Tier, costs: &[&'static str], ctx: &mut Ctx) {
     let (pmax, tmax) = tier.pick((3, 4), (4, 5));
     let pats = gen::strings(b"abA", 1, pmax);
     let texts = gen::strings(b"abA", 0, tmax);
     for p in &pats {
-        for cost in COSTS {
-            let f = cost_fn(cost);
+        for &cost in costs {
+            let f = model_cost(cost);
             for t in &texts {
                 let d = edit::semiglobal(p, t, |a, b| f(a, b) as u64);
                 ctx.case(
@@ -696,10 +717,11 @@ fn ukkonen_kmax_unit(tier: Tier, ctx: &mut Ctx) {
 /// after its first item. Every answer must equal the DP's.
 fn check_ukkonen_reuse(cost: &str, hist: &[(Vec<u8>, Vec<u8>, u64, bool)], cc: &mut CaseCtx) {
     let f = cost_fn(cost);
+    let fm = model_cost(cost);
     let wants: Vec<Vec<(usize, u64)>> = hist
         .iter()
         .map(|(p, t, k, full)| {
-            let d = edit::semiglobal(p, t, |a, b| f(a, b) as u64);
+            let d = edit::semiglobal(p, t, |a, b| fm(a, b) as u64);
             let mut w = edit::expected_hits(&d, *k);
             if !*full {
                 w.truncate(1);
@@ -1056,6 +1078,215 @@ fn distance_simd_unit(tier: Tier, shard: usize, nshards: usize, ctx: &mut Ctx) {
     }
 }
 
+// ------------------------------------------------------------------ block de-activation family
+
+/// One family: multi-block patterns for the block-based matcher with word size `w`.
+pub struct DeactFam {
+    pub w: usize,
+    pub lens: Vec<usize>,
+    /// longest period unit of the patterns
+    pub max_unit: usize,
+    /// every run length 0..=2w+2 of the diverging stretch, or only those around 0, w and 2w
+    pub dense: bool,
+}
+
+/// a -> b -> c -> a
+pub fn rot(c: u8) -> u8 {
+    match c {
+        b'a' => b'b',
+        b'b' => b'c',
+        _ => b'a',
+    }
+}
+
+/// Periodic patterns u^r cut to `lens`, plain and with the last symbol changed, for every unit u
+/// over {a,b,c} that contains c. (Every other family of C09/C10 uses patterns over {a,b} or
+/// {a,b,N} at these lengths, so no (pattern, text, k) of this family is enumerated elsewhere.)
+pub fn deact_patterns(lens: &[usize], max_unit: usize) -> Vec<Vec<u8>> {
+    let mut out = vec![];
+    for u in gen::strings(b"abc", 1, max_unit) {
+        if !u.contains(&b'c') {
+            continue;
+        }
+        for &l in lens {
+            let base = gen::periodic(&u, l);
+            let mut x = base.clone();
+            x[l - 1] = rot(x[l - 1]);
+            out.push(base);
+            out.push(x);
+        }
+    }
+    out.sort();
+    out.dedup();
+    out.sort_by_key(|p| p.len());
+    out
+}
+
+/// symbol that occurs in no pattern of the family
+pub const FOREIGN: u8 = b'd';
+
+/// Texts p[..a] f^j p[..c]: a prefix of the pattern (the lower blocks become active), a run of j
+/// copies of f (the distances of the lower blocks climb by up to one per column until they reach
+/// k + w and the blocks are dropped again), then a prefix of the pattern once more (the blocks are
+/// re-activated). a in `a_set`, f in `fillers`, j in `j_set`, c in `c_set`; sorted, duplicates removed.
+pub fn deact_texts(p: &[u8], a_set: &[usize], fillers: &[u8], j_set: &[usize], c_set: &[usize]) -> Vec<Vec<u8>> {
+    let m = p.len();
+    let mut out = vec![];
+    for &a in a_set {
+        for (fi, &f) in fillers.iter().enumerate() {
+            for &j in j_set {
+                if j == 0 && fi > 0 {
+                    continue;
+                }
+                for &c in c_set {
+                    let mut t = p[..a.min(m)].to_vec();
+                    t.extend(std::iter::repeat(f).take(j));
+                    t.extend_from_slice(&p[..c.min(m)]);
+                    out.push(t);
+                }
+            }
+        }
+    }
+    out.sort();
+    out.dedup();
+    out
+}
+
+/// The patterns of several families (word size, lengths, longest period unit), each with the word
+/// sizes of the families it belongs to: a length can be a boundary length of more than one word
+/// size, and every (pattern, text, k) is to be enumerated once.
+pub fn deact_plan(fams: &[(usize, Vec<usize>, usize)]) -> Vec<(Vec<u8>, Vec<usize>)> {
+    let mut out: Vec<(Vec<u8>, Vec<usize>)> = vec![];
+    for (w, lens, max_unit) in fams {
+        for p in deact_patterns(lens, *max_unit) {
+            match out.iter_mut().find(|e| e.0 == p) {
+                Some(e) => {
+                    if !e.1.contains(w) {
+                        e.1.push(*w)
+                    }
+                }
+                None => out.push((p, vec![*w])),
+            }
+        }
+    }
+    out
+}
+
+pub fn clamp_set(mut v: Vec<usize>, m: usize) -> Vec<usize> {
+    v.retain(|&x| x <= m);
+    v.sort();
+    v.dedup();
+    v
+}
+
+fn deact_families(tier: Tier) -> Vec<DeactFam> {
+    match tier {
+        Tier::Quick => vec![
+            DeactFam { w: 8, lens: vec![9, 10, 15, 16, 17, 24, 25], max_unit: 2, dense: true },
+            DeactFam { w: 16, lens: vec![17, 32, 33], max_unit: 2, dense: true },
+        ],
+        Tier::Thorough => vec![
+            DeactFam { w: 8, lens: vec![9, 10, 15, 16, 17, 23, 24, 25, 32, 33], max_unit: 3, dense: true },
+            DeactFam { w: 16, lens: vec![17, 18, 31, 32, 33, 48, 49], max_unit: 2, dense: true },
+            DeactFam { w: 64, lens: vec![65, 128, 129], max_unit: 2, dense: false },
+        ],
+    }
+}
+
+fn deact_j_set(w: usize, dense: bool) -> Vec<usize> {
+    if dense {
+        (0..=2 * w + 2).collect()
+    } else {
+        let mut v: Vec<usize> = vec![0, 1, 2];
+        v.extend(w - 2..=w + 4);
+        v.extend(2 * w - 2..=2 * w + 3);
+        v
+    }
+}
+
+fn deact_ks(w: usize) -> Vec<K> {
+    let mut v = vec![0usize, 1, 2, 3, w / 2 + 1, w, w + w / 2 + 1];
+    v.sort();
+    v.dedup();
+    v.into_iter().map(|k| K::N(k as u64)).collect()
+}
+
+/// Does the DP predict the sequence "block 1 can be activated, later its distance reaches k + w
+/// (it has to be dropped), later block 1 can be activated again" for threshold k? Evidence
+/// counter only (vacuity guard of the family), never part of a verdict. `d0` = D[w][i] (distance
+/// at the bottom of block 0), `d1` = D[min(2w, m)][i] (bottom of block 1).
+fn predicts_drop_and_return(d0: &[u64], d1: &[u64], k: u64, w: u64) -> bool {
+    let n = d0.len();
+    let mut stage = 0;
+    for i in 0..n {
+        match stage {
+            0 if d0[i] <= k => stage = 1,
+            1 if d1[i] >= k.saturating_add(w) => stage = 2,
+            2 if d0[i] <= k => return true,
+            _ => {}
+        }
+    }
+    false
+}
+
+fn deact_unit(tier: Tier, shard: usize, nshards: usize, ctx: &mut Ctx) {
+    let eq = EqModel::plain();
+    let fams = deact_families(tier);
+    let plan = deact_plan(&fams.iter().map(|f| (f.w, f.lens.clone(), f.max_unit)).collect::<Vec<_>>());
+    for (idx, (p, ws)) in plan.iter().enumerate() {
+        if idx % nshards != shard {
+            continue;
+        }
+        let m = p.len();
+        let set = MatcherSet::new(p, Ctors::PlainOnly, &IMPS);
+        // texts and thresholds of every word size this length belongs to, each once
+        let mut texts: Vec<Vec<u8>> = vec![];
+        let mut ks: Vec<K> = vec![];
+        for &w in ws {
+            let dense = fams.iter().find(|f| f.w == w).map_or(true, |f| f.dense);
+            let a_set = clamp_set(vec![0, w - 1, w, w + 1, 2 * w, m - 1, m], m);
+            let c_set = clamp_set(vec![0, w + 1, m - 1, m], m);
+            texts.extend(deact_texts(p, &a_set, &[FOREIGN, b'a', b'b', b'c'], &deact_j_set(w, dense), &c_set));
+            for k in deact_ks(w) {
+                if !ks.contains(&k) {
+                    ks.push(k);
+                }
+            }
+        }
+        texts.sort();
+        texts.dedup();
+        for t in &texts {
+            let d = edit::semiglobal_eq(p, t, &eq);
+            let rows: Vec<(u64, Vec<u64>, Vec<u64>)> = ws
+                .iter()
+                .map(|&w| (w as u64, edit::semiglobal_eq(&p[..w], t, &eq), edit::semiglobal_eq(&p[..m.min(2 * w)], t, &eq)))
+                .collect();
+            for &k in &ks {
+                let kn = match k {
+                    K::N(n) => n,
+                    K::Max => u64::MAX,
+                };
+                let pred = rows.iter().any(|(w, d0, d1)| predicts_drop_and_return(d0, d1, kn, *w));
+                ctx.case(
+                    || json!({"kind": "search", "ctors": Ctors::PlainOnly.name(), "p": show(p), "t": show(t), "k": k.to_json()}),
+                    |cc| {
+                        if pred {
+                            cc.count("deact_family_dp_predicts_drop_and_reactivation", 1);
+                        }
+                        check_search(&set, p, t, k, &d, cc)
+                    },
+                );
+            }
+            if !t.is_empty() {
+                ctx.case(
+                    || json!({"kind": "best", "ctors": Ctors::PlainOnly.name(), "p": show(p), "t": show(t)}),
+                    |cc| check_best(&set, p, t, &d, cc),
+                );
+            }
+        }
+    }
+}
+
 // ------------------------------------------------------------------ Prop
 
 const SWEEP: usize = 32;
@@ -1064,6 +1295,8 @@ const BOUNDARY: usize = 12;
 const UKK: usize = 6;
 const DIST: usize = 4;
 const DIST_SIMD: usize = 2;
+const DEACT: usize = 8;
+const UKK_LIB: usize = 2;
 
 fn unit_names() -> Vec<String> {
     let mut v: Vec<String> = vec![];
@@ -1078,6 +1311,10 @@ fn unit_names() -> Vec<String> {
     for c in COSTS {
         v.push(format!("reuse-ukkonen-{}", c));
     }
+    // appended later (unit names are referred to by replay files and evidence; keep the order)
+    v.extend((0..DEACT).map(|i| format!("deact-{}", i)));
+    v.extend((0..UKK_LIB).map(|i| format!("ukkonen-{}-{}", LIB_COST, i)));
+    v.push(format!("reuse-ukkonen-{}", LIB_COST));
     v
 }
 
@@ -1089,7 +1326,7 @@ impl Prop for C09Prop {
         "exploration"
     }
     fn rule(&self) -> &'static str {
-        "Complete sweep of (pattern, text, k) over {a,b} (three byte embeddings) through seven Myers instantiations (one-word u8/u16/u32/u64, block-based u8/u16/u64), each built with new() and with MyersBuilder, k = 0..|p|+1 and the largest expressible k; distance()/find_best_end() on every non-empty text; ambiguity/wildcard sweep over {a,b,N} x {a,b,*,N}; periodic patterns of lengths around 8/16/32/64/128 against flanked edit-neighbourhoods (<=2 edits at positions 0,1,mid,last); Ukkonen with unit/caseless/weighted costs over {a,b,A}; free distance functions over all pairs of short strings and a SIMD-length family; reuse histories. One case = one (pattern, text, k) resp. (pattern, text) resp. history; each is enumerated once. Non-trivial: some end position has a distance d with 0 < d <= k, or the pattern spans more than one block of a block-based instantiation (distance functions: distance > 0 on non-empty strings; reuse: hits with d > 0 in at least two searches)."
+        "Complete sweep of (pattern, text, k) over {a,b} (three byte embeddings) through seven Myers instantiations (one-word u8/u16/u32/u64, block-based u8/u16/u64), each built with new() and with MyersBuilder, k = 0..|p|+1 and the largest expressible k; distance()/find_best_end() on every non-empty text; ambiguity/wildcard sweep over {a,b,N} x {a,b,*,N}; periodic patterns of lengths around 8/16/32/64/128 against flanked edit-neighbourhoods (<=2 edits at positions 0,1,mid,last); Ukkonen with unit/caseless/weighted costs over {a,b,A}; free distance functions over all pairs of short strings and a SIMD-length family; reuse histories; block de-activation family: periodic multi-block patterns over {a,b,c} (every unit containing c) against texts p[..a] f^j p[..c] (pattern prefix, run of j <= 2w+2 copies of a foreign or a pattern symbol, pattern prefix again) so that lower blocks are activated, dropped at distance k+w and re-activated; the Ukkonen sweep, the k = usize::MAX family and the reuse histories once more with the library's public unit_cost as cost function. One case = one (pattern, text, k) resp. (pattern, text) resp. history; each is enumerated once. Non-trivial: some end position has a distance d with 0 < d <= k, or the pattern spans more than one block of a block-based instantiation (distance functions: distance > 0 on non-empty strings; reuse: hits with d > 0 in at least two searches)."
     }
     fn assumptions(&self) -> Vec<&'static str> {
         vec![
@@ -1098,6 +1335,8 @@ impl Prop for C09Prop {
             "one-word matchers are only given patterns up to the word size and thresholds up to 255 (the distance type); Ukkonen thresholds 0..=|p|+2 and usize::MAX",
             "find_all_end/distance/find_best_end take &self and the types have no interior mutability, so one matcher object per pattern is shared by the cases of that pattern; replay builds a fresh one",
             "subject built with overflow checks and debug assertions on, as in the pinned test profile",
+            "block de-activation family: whether a block is active is not observable through the public API; the counter deact_family_dp_predicts_drop_and_reactivation counts the cases in which the DP rows at the block boundaries say that block 1 must be activated, dropped (distance >= k + w) and activated again (vacuity guard only, not part of any verdict)",
+            "ukkonen::unit_cost is only ever handed to the subject; the reference DP of those cases uses the module's own unit cost",
         ]
     }
     fn bounds(&self, tier: Tier) -> Value {
@@ -1119,7 +1358,15 @@ impl Prop for C09Prop {
             "ukkonen": {"alphabet": "a,b,A", "pattern_len": format!("1..={}", up), "text_len": format!("0..={}", ut), "k": "0..=|p|+2", "costs": COSTS, "k_usize_max": format!("separate unit: pattern_len 1..={}, text_len 0..={}", tier.pick(3, 4), tier.pick(4, 5))},
             "distance": {"binary_len": format!("0..={}", l2), "ternary_len": format!("0..={}", l3), "bounded_k": "0..=max(|a|,|b|)+1, u32::MAX",
                          "simd_lengths": tier.pick("15..17,31..33,63..65,127..129,255..257,300", "15..17,31..33,47..49,63..65,95..97,127..129,191..193,255..257,300,511..513")},
-            "reuse": {"myers": "3 interleaved searches on one object, 5 texts^3 x 4 threshold pairs x implementations", "ukkonen": format!("histories of {} searches (pattern, text, k, consumed fully or abandoned after the first hit)", tier.pick(2, 3))}
+            "reuse": {"myers": "3 interleaved searches on one object, 5 texts^3 x 4 threshold pairs x implementations", "ukkonen": format!("histories of {} searches (pattern, text, k, consumed fully or abandoned after the first hit)", tier.pick(2, 3))},
+            "block_deactivation": deact_families(tier).iter().map(|f| json!({
+                "word": f.w, "pattern_len": f.lens,
+                "patterns": format!("u^r cut to the length, plain and last symbol rotated, u in {{a,b,c}}^1..={} containing c", f.max_unit),
+                "texts": format!("p[..a] f^j p[..c], a in {{0,w-1,w,w+1,2w,|p|-1,|p|}}, f in {{d,a,b,c}}, j in {}, c in {{0,w+1,|p|-1,|p|}}",
+                                 if f.dense { format!("0..={}", 2 * f.w + 2) } else { format!("{:?}", deact_j_set(f.w, false)) }),
+                "k": deact_ks(f.w).iter().map(|k| k.to_json()).collect::<Vec<_>>(),
+                "implementations": "every instantiation that accepts the pattern length, new() only"})).collect::<Vec<_>>(),
+            "ukkonen_unit_cost": "the ukkonen sweep, the k_usize_max family and the reuse histories with bio::pattern_matching::ukkonen::unit_cost"
         })
     }
     fn units(&self, _tier: Tier) -> Vec<String> {
@@ -1140,7 +1387,7 @@ impl Prop for C09Prop {
         }
         u -= AMBIG;
         if u < UKK {
-            return ukkonen_unit(tier, u, UKK, ctx);
+            return ukkonen_unit(tier, &COSTS, u, UKK, ctx);
         }
         u -= UKK;
         if u < DIST {
@@ -1152,7 +1399,7 @@ impl Prop for C09Prop {
         }
         u -= DIST_SIMD;
         if u == 0 {
-            return ukkonen_kmax_unit(tier, ctx);
+            return ukkonen_kmax_unit(tier, &COSTS, ctx);
         }
         u -= 1;
         if u == 0 {
@@ -1160,7 +1407,24 @@ impl Prop for C09Prop {
         }
         u -= 1;
         if u < COSTS.len() {
-            ukkonen_reuse_unit(tier, COSTS[u], ctx);
+            return ukkonen_reuse_unit(tier, COSTS[u], ctx);
+        }
+        u -= COSTS.len();
+        if u < DEACT {
+            return deact_unit(tier, u, DEACT, ctx);
+        }
+        u -= DEACT;
+        if u < UKK_LIB {
+            // the sweep of the ukkonen-* units with the library's own cost function; the first
+            // shard also takes the k = usize::MAX family
+            if u == 0 {
+                ukkonen_kmax_unit(tier, &[LIB_COST], ctx);
+            }
+            return ukkonen_unit(tier, &[LIB_COST], u, UKK_LIB, ctx);
+        }
+        u -= UKK_LIB;
+        if u == 0 {
+            ukkonen_reuse_unit(tier, LIB_COST, ctx);
         }
     }
     fn replay(&self, case: &Value, ctx: &mut Ctx) {
@@ -1180,14 +1444,14 @@ impl Prop for C09Prop {
             }
             "ukkonen" => {
                 let (p, t) = (s("p"), s("t"));
-                let cost = COSTS.iter().cloned().find(|c| case["cost"] == *c).unwrap_or("unit");
+                let cost = cost_name(&case["cost"]);
                 let k = case["k"].as_u64().unwrap_or(0);
-                let f = cost_fn(cost);
+                let f = model_cost(cost);
                 let d = edit::semiglobal(&p, &t, |a, b| f(a, b) as u64);
                 ctx.case(|| case.clone(), |cc| check_ukkonen(cost, &p, &t, k, &d, cc));
             }
             "ukkonen-reuse" => {
-                let cost = COSTS.iter().cloned().find(|c| case["cost"] == *c).unwrap_or("unit");
+                let cost = cost_name(&case["cost"]);
                 let hist: Vec<(Vec<u8>, Vec<u8>, u64, bool)> = case["searches"]
                     .as_array()
                     .map(|a| {
